@@ -1136,6 +1136,9 @@ fn seeds(args: &[String]) {
         out.put(&seed_rec("filter", &zlib(&png), pairs(vec![("Filter", tname("FlateDecode")), ("DecodeParms", parms.clone())]), toks(BIN_TOKS), "flate+png"));
         out.put(&seed_rec("filter", &lzw_encode_literal(&png), pairs(vec![("Filter", tname("LZWDecode")), ("DecodeParms", parms)]), toks(BIN_TOKS), "lzw+png"));
         out.put(&seed_rec("png", &png, pairs(vec![("Bpp", tint(bpp as i64)), ("Ppr", tint(cols))]), toks(BIN_TOKS), "png"));
+        // the TIFF predictor takes the other branch of the predictor code: any bytes are predictor-coded data
+        let tparms = tdict(vec![("Predictor", tint(2)), ("Columns", tint(cols)), ("Colors", tint(colors)), ("BitsPerComponent", tint(bpc))]);
+        out.put(&seed_rec("filter", &zlib(&data), pairs(vec![("Filter", tname("FlateDecode")), ("DecodeParms", tparms)]), toks(BIN_TOKS), "flate+tiff"));
     }
     // object streams
     for i in 0..n {
